@@ -247,7 +247,11 @@ def gen_labels(rng, n):
         lab[rng.permutation(n)[: int(rng.integers(1, 3))]] = int(rng.integers(0, 9))
     else:  # interleaved molecules
         lab = np.arange(n) % max(1, n // 2)
-    return np.asarray(lab, dtype=int)
+    lab = np.asarray(lab, dtype=int)
+    if lab.min(initial=0) >= 0 and rng.random() < 0.35:
+        # labels that are all non-negative may come in an unsigned or a narrow integer dtype
+        lab = lab.astype([np.uint8, np.uint16, np.uint64, np.int32, np.int8][int(rng.integers(5))])
+    return lab
 
 
 def make_op(rng, n_max_group):
